@@ -1,5 +1,5 @@
 -------------------------- MODULE MC_WriterChain --------------------------
 EXTENDS WriterChain
-AllPlans == {"small", "drop", "big", "chunked", "unused", "raw2f", "raw2n", "raw1l", "rawf1"}
-QuickPlans == {"small", "big", "unused", "raw2f", "raw2n", "drop", "rawf1"}
+AllPlans == {PSmall, PDrop, PBig, PChunked, PUnused, PRaw2f, PRaw2n, PRaw1l, PRawf1}
+QuickPlans == {PSmall, PBig, PUnused, PRaw2f, PRaw2n, PDrop, PRawf1}
 =============================================================================
